@@ -207,6 +207,7 @@ class NCtx:
         self.outs = []
         self.checks = []
         self.tags = []
+        self.cleanups = []
 
     def _get(self, name, default):
         return self.inputs.get(name, default)
